@@ -5,7 +5,7 @@ import re
 
 import dsl
 import tlc
-from common import Infra, Scratch, build_cli, pmap, run, write
+from common import Infra, Scratch, build_cli, build_driver, pmap, run, write
 from evidence import Report
 from props_pipeline import FLAG, LANGS
 
@@ -18,6 +18,7 @@ KEYWORDS = {
     "lenofOutsideRoot": ["only be declared in the root", "outside root", "root packet"],
     "lenofTwice": ["duplicate lengthof", "duplicate length"],
     "undeclaredPacket": ["unknown packet", "undeclared packet", "undefined packet", "not defined", "unknown type"],
+    "undeclaredMeta": ["unknown metadata", "undeclared metadata", "metadata type", "unknown meta"],
     "undeclaredKeyField": ["unknown match key", "undeclared key", "unknown key field", "key field", "match key"],
     "undeclaredLenTarget": ["unknown length", "length target", "lengthof target", "unknown field", "undeclared field", "target field"],
 }
@@ -65,6 +66,60 @@ def expected_lines(site, sites):
     if site[0] == "pair":
         lines.append(sites[("field", site[1], site[2])])     # the match field's own line is acceptable too
     return lines
+
+
+def frontend_conformance(rep, tier):
+    """Accept side of C12 over the whole DslGen vocabulary, and conformance of the model the front end builds with
+    spec/Model.tla (TraceModel.tla).  A well-formed program that is rejected (diagnostic / panic) is a C12 case;
+    a model that differs from ModelOf(prog) is NOT a verdict of any listed property by itself (the generators may
+    not observe the difference): it is printed as a NOTE and counted in the evidence."""
+    import props_codec
+    drv = build_driver()
+    if drv is None:
+        rep.assumptions.append("front-end conformance skipped: the overlay driver does not build against this tree")
+        return
+    progs = props_codec.gen_programs(rep, tier)
+    events, paths = [], []
+    with Scratch() as tmp:
+        for n, p in enumerate(progs):
+            text, sites = dsl.render_lines(p)
+            path = os.path.join(tmp, "p%d.dsl" % n)
+            with open(path, "w") as fh:
+                fh.write(text)
+            paths.append(path)
+            lines = {"pkts": [sites[("pkt", j)] for j in range(1, len(p["pkts"]) + 1)],
+                     "metas": [sites[("meta", j)] for j in range(1, len(p.get("metas") or []) + 1)]}
+            events.append({"ev": "model", "id": p["id"], "text": text, "lines": lines,
+                           "prog": {"opts": p["opts"], "metas": p.get("metas") or [], "pkts": p["pkts"]}})
+        r = run([drv, "models"], input="\n".join(paths) + "\n", timeout=600)
+    outs = [json.loads(l) for l in r.stdout.splitlines() if l.startswith("{")]
+    if r.returncode != 0 or len(outs) != len(events):
+        raise Infra("overlay driver 'models' failed: rc=%s, %d of %d answers\n%s" % (r.returncode, len(outs), len(events), r.stderr[-1500:]))
+    trace = []
+    for e, o in zip(events, outs):
+        sig = "frontend|%s" % e["id"]
+        if o.get("panic") or o.get("err") or not o.get("ok") or "model" not in o:
+            rep.case(sig + "|rejected", False,
+                     "well-formed program %s is not accepted by the front end: diagnostics %s panic %s err %s" % (
+                         e["id"], [(d["line"], d["msg"][:70]) for d in (o.get("diags") or [])][:3], (o.get("panic") or "")[:100], o.get("err")),
+                     {"dsl": e["text"], "observed": {k: o.get(k) for k in ("ok", "diags", "panic", "err")},
+                      "how": "fin-protoc compile -f p.dsl -g out (or the overlay driver: verifdrv models < paths)"})
+            continue
+        rep.case(sig + "|accepted", True)
+        trace.append({"ev": "model", "id": e["id"], "prog": e["prog"], "lines": e["lines"], "dump": o["model"]})
+    if not trace:
+        return
+    text = "\n".join(json.dumps(e, sort_keys=True) for e in trace) + "\n"
+    cfg = "SPECIFICATION Spec\nPOSTCONDITION Accepted\nCHECK_DEADLOCK FALSE\n"
+    t = tlc.run_tlc("TraceModel", cfg, workers=1, timeout=1500, extra_files={"trace.ndjson": text})
+    if not t.ok or t.depth != len(trace) + 1:
+        raise Infra("TraceModel failed: rc=%s %s depth=%s/%s\n%s" % (t.rc, t.errors[:3], t.depth, len(trace) + 1, t.out[-1500:]))
+    rep.tlc(t, traces=len(trace))
+    notes = []
+    for v in t.verdicts:
+        notes.append({"program": v["id"], "differs": v["differs"]})
+        print("NOTE: front-end model of %s differs from Model.tla in %s (not a verdict of C12)" % (v["id"], v["differs"]))
+    rep.cov["frontend_model_conformance"] = {"programs": len(trace), "differing": len(notes), "examples": notes[:10]}
 
 
 def check_c12(tier):
@@ -126,6 +181,7 @@ def check_c12(tier):
                 f["class"], site, f["base"], fl["kind"], m["ob"]["exit"], [(d["line"], d["text"][:60]) for d in m["ob"]["diags"]][:3]),
                 {"dsl": m["text"], "expected": m["exp"], "observed": {k: m["ob"][k] for k in ("exit", "panic", "diags", "files")},
                  "cmd": "fin-protoc -f p.dsl -l o/l -r o/r -g o/g -j o/j -p o/p -c o/c"})
+    frontend_conformance(rep, tier)
     rep.sample({"fault": cases[1]["fault"], "expected": cases[1]["diags"], "dsl": dsl.render(cases[1]["prog"])[:600]})
     rep.assumptions += ["message text -> offence class by keyword (lenient); columns ignored",
                         "accept side here covers the 3 bases; every generated codec program adds to it under C07"]
